@@ -100,6 +100,7 @@ class Ledger(Base):
         self.late_polled: List[list] = []
         self.late_msgs: List[list] = []
         self.respawn_refused: List[str] = []
+        self.repolled_known: List[list] = []
 
     def on_event(self, ev):
         k = ev['k']
@@ -125,6 +126,15 @@ class Ledger(Base):
             if tid in self.submits and schd is not None and \
                     schd.pool._get_task_by_id(tid) is None:
                 self.late_msgs.append([tid, ev['message']])
+        elif k == 'MSG_OUT' and ev.get('flag') == '(polled)' and \
+                self.phase.get('restart') and not ev.get('transient') and \
+                ev['status_before'] in ACTIVE and set(
+                    ev['outputs_before']) & ({ev['message']} | {
+                        'submitted', 'started'}) - {'submitted'}:
+            # the restart poll reports an output the DB already had on
+            # record: nothing is propagated again for it
+            self.repolled_known.append([ev['id'], sorted(
+                set(ev['outputs_before']) - {'submitted'})])
         elif k == 'MSG_OUT' and ev.get('transient') and \
                 not ev.get('forced') and ev.get('flag') in (
                     '(polled)', '(received)'):
@@ -144,6 +154,7 @@ class Ledger(Base):
                 'messages_after_task_left_pool': self.late_msgs,
                 'n_late_msgs': len(self.late_msgs),
                 'respawn_refused': self.respawn_refused,
+                'repolled_known_outputs': self.repolled_known,
                 '_state': {'manual': sorted(self.manual)}}
 
     def actual_facts(self) -> Set[Tuple[str, int, str]]:
